@@ -155,6 +155,10 @@ def check_aes(pid, tier, replay=None):
             # one update of more than 4 GiB after a carried partial block, every family and key size (OpenSSL oracle)
             bj = [("gcm", f, chk.seed * 41 + 3, 20, 300) for f in whats["gcm"]]
             results += aescheck.sweep(drv, bj, env={"VERIF_GCM_BIG": "1"})
+    if pid == "C04" and tier != "quick":
+        # one CBC decrypt call of more than 4 GiB (2^32 + 1..7 blocks) per family and key size, OpenSSL oracle
+        bj = [("cbc", f, chk.seed * 43 + 1, 20, 300) for f in whats["cbc"]]
+        results += aescheck.sweep(drv, bj, env={"VERIF_CBC_BIG": "1"})
     if pid == "C02":
         # one-shot counter-carry sweep: 331 block counts (200..530) so that the 8-bit counter shortcut wraps at every phase
         rounds = 1 if tier == "quick" else 4
@@ -162,7 +166,7 @@ def check_aes(pid, tier, replay=None):
         results += aescheck.sweep(drv, sj, env={"VERIF_GCM_SWEEP": "2"})
     total, hist, fam_ops = 0, {}, {}
     for r in results:
-        key = "%s/%s" % (r["what"], r["fam"]) + ("/big-update" if "VERIF_GCM_BIG" in (r.get("env") or {}) else "/carry-sweep" if r.get("env") else "")
+        key = "%s/%s" % (r["what"], r["fam"]) + ("/big-update" if "VERIF_GCM_BIG" in (r.get("env") or {}) else "/big-cbc" if "VERIF_CBC_BIG" in (r.get("env") or {}) else "/carry-sweep" if r.get("env") else "")
         total += r["ops"]
         fam_ops[key] = fam_ops.get(key, 0) + r["ops"]
         for k, v in r["hist"].items():
@@ -1051,6 +1055,18 @@ def check_wrap(pid, tier, replay=None):
         hit = [k for k in found if k[0] == rp.get("monitor", "").split()[1] and k[1] == rp.get("entry")] if rp.get("monitor") else found
         print("replay: %s" % (hit[:3],))
         return 1 if hit else 0
+    if pid == "C16" and tier != "quick" and not replay:
+        # arguments the wrappers forward unchanged: lengths are 64-bit.  One isal_aes_cbc_dec_* call of more than 4 GiB per key
+        # size (a wrapper that narrows the length returns 0 and leaves most of the output unwritten), OpenSSL oracle
+        drv_aes = vlib.harness_bin("drv_aes", extra_src=vlib.TRAMP_SRC)
+        rb = aescheck.run_one(drv_aes, "cbc", "pub", chk.seed * 43 + 1, 20, 300, env={"VERIF_CBC_BIG": "1"})
+        bm = [m for m in rb["monitors"] if "big-cbc" in m or m.startswith("CRASH")]
+        chk.oblige("isal_aes_cbc_dec_{128,192,256} on 2^32 + k blocks agree with the oracle", not bm, str(bm[:2]))
+        for m in bm[:2]:
+            found.append(("C16-LENGTH-NARROWED", "isal_aes_cbc_dec"))
+            chk.violation("isal_aes_cbc_dec_* wrong on a length above 2^32: %s" % m[:120],
+                          {"kind": "input", "args": rb["args"], "env": {"VERIF_CBC_BIG": "1"}, "monitor": m[:300]},
+                          match={"monitor": "C16-LENGTH-NARROWED"})
     if lean_failed and not found:
         for name, detail in lean_failed:
             chk.violation("Lean obligation no longer checks: %s" % name,
